@@ -60,14 +60,15 @@ func (m *mmeta) portbaseDeleted() int64 {
 }
 
 type mrec struct {
-	stored  bool
-	form    string
-	c       content
-	data    []byte // serialized payload handed to the database (json / opaque forms)
-	format  uint8
-	meta    mmeta
-	lastOp  string // last mutating operation that touched the key (signature class)
-	tainted bool   // a violation left the state of this key undetermined: skip until rewritten
+	stored   bool
+	form     string
+	c        content
+	data     []byte // serialized payload handed to the database (json / opaque forms)
+	format   uint8
+	meta     mmeta
+	lastOp   string // last mutating operation that touched the key (signature class)
+	verified bool   // the key was read back intact since lastOp
+	tainted  bool   // a violation left the state of this key undetermined: skip until rewritten
 }
 
 type model struct {
